@@ -424,9 +424,10 @@ def oracle_admission(cfg, ops, trace):
             decide = (int(toks[1]), weigh(cfg, int(toks[1]), int(toks[2])), prev)
         if not unsync:
             if o == "I" and prev is not None and int(toks[1]) not in prev.map and prev.rq == 0 and prev.wq == 0:
-                pending = (int(toks[1]), weigh(cfg, int(toks[1]), int(toks[2])), prev)
+                pending = (int(toks[1]), weigh(cfg, int(toks[1]), int(toks[2])), prev, dict(est))
             elif o == "S" and pending is not None:
-                decide = pending
+                decide = pending[:3]
+                est = pending[3]        # the estimates read just before the insert
                 pending = None
             elif o not in ("Q", "C", "T"):
                 pending = None
